@@ -14,7 +14,9 @@ def run_c10(ctx):
     nhist, nruns = (25, 6) if thorough else (3, 4)
     for h in range(nhist):
         with slevel.Sandbox("c10") as sb:
-            H = runs.History(ctx, sb, rng, "C10", rng.randrange(1, 4), rng.randrange(1, 4), nitems=rng.choice([1, 2]), identity_changes=True)
+            # every other history also changes content under an unchanged (device, inode, mtime) with a different size: the line must still
+            # be truthful (the repaired fingerprint shortcut compares sizes)
+            H = runs.History(ctx, sb, rng, "C10", rng.randrange(1, 4), rng.randrange(1, 4), nitems=rng.choice([1, 2]), identity_changes=(h % 2 == 0))
             H.w.populate(nfiles=10)
             for i in range(nruns):
                 H.run()
@@ -23,6 +25,31 @@ def run_c10(ctx):
             H.report_diffs("backup-run")
         if ctx.violations:
             break
+    # targeted: a file rewritten in place to another length with its mtime set back (same device, inode, mtime - another size): the next
+    # backup's line must describe the file as it is now
+    if not ctx.has_failing_input():
+        with slevel.Sandbox("c10") as sb:
+            H = runs.History(ctx, sb, rng, "C10", 3, 6, identity_changes=False)
+            H.advance = lambda: None
+            H.now += 3600
+            H.w.populate(nfiles=4)
+            p = os.path.join(H.w.src, H.w.items[0], "report.txt")
+            H.w.write_file(p, b"first build of the report\n")
+            H.now += 61
+            H.run(nedits=0)
+            for newd in (b"second build, a longer report than before\n", b"third\n"):
+                st = os.lstat(p)
+                with open(p, "r+b") as f:
+                    f.truncate(0)
+                    f.write(newd)
+                H.w.remember(newd)
+                os.utime(p, ns=(st.st_atime_ns, st.st_mtime_ns))
+                H.now += 61
+                H.run(nedits=0)
+                ctx.count("targeted.rewritten-in-place-mtime-set-back")
+                if ctx.has_failing_input():
+                    break
+            H.report_diffs("backup-run")
     # a source file that fails to be read in the middle of its SECOND pass (the tar header and part of the data are already in the stream):
     # whatever gets a final name must still be a well-formed archive with lines and entries in step
     if not ctx.has_failing_input():
